@@ -28,14 +28,14 @@ def events_of(h):
     return evs
 
 
-def gen(chk, name, c, sim=None, seed=0, spec='GenSpec'):
+def gen(chk, name, c, sim=None, seed=0, spec='GenSpec', deadlock=False):
     cfg = os.path.join(chk.work, f'{name}.cfg')
     if sim:
         tlc.write_cfg(cfg, spec='GenSpec', constants=c, invariants=['SimInv'])
         res = tlc.run('Farm_Gen.tla', cfg, workers=1, simulate=f'num={sim[0]}', depth=sim[1], seed=seed, timeout=900, out_file=os.path.join(chk.work, f'{name}.out'))
     else:
         tlc.write_cfg(cfg, spec=spec, constants=c, extra=['VIEW View', 'ACTION_CONSTRAINT Emit'])
-        res = tlc.run('Farm_Gen.tla', cfg, workers=1, timeout=1800, out_file=os.path.join(chk.work, f'{name}.out'))
+        res = tlc.run('Farm_Gen.tla', cfg, workers=1, timeout=1800, deadlock=deadlock, out_file=os.path.join(chk.work, f'{name}.out'))
         if not res.ok:
             raise core.Machinery(f'generation {name} failed: {res.error or res.violated}')
     chk.mc_runs.append(dict(res.summary(), name=name, module='Farm_Gen.tla', mode='simulate' if sim else 'transitions'))
@@ -69,6 +69,8 @@ def collect(chk, pid, jobs, nw, targets):
                     c['run_ids_drawn'] = c.get('run_ids_drawn', 0) + len(o['drawn'])
                     c['ticks_while_inactive'] = c.get('ticks_while_inactive', 0) + (1 if st['ev'] == 'Tick' and not st['st']['active'] else 0)
                     c['messages_left_queued'] = c.get('messages_left_queued', 0) + (len(st['st']['cluster']) if st['ev'] == 'Tick' else 0)
+                    c['updates_through_real_reload'] = c.get('updates_through_real_reload', 0) + (1 if st['ev'] == 'RevChange' and st['st']['head'] != 'rev0' else 0)
+                    c['registrations_after_update'] = c.get('registrations_after_update', 0) + (1 if st['ev'] == 'Register' and st['st']['head'] != 'rev0' else 0)
                     c['run_id_reused'] = c.get('run_id_reused', 0) + sum(1 for m in o['put'] if m['run'] > 0 and not o['drawn'])
     for r in rows['DRIFT']:
         chk.drift += 1
@@ -110,7 +112,15 @@ def run(pid, tier, seed, replay=None):
     if not thorough:
         rnd.shuffle(lean)
         lean = lean[:2500]
+    # the software update: every transition of the guided instance (update -> checkout moved / real reload -> load -> resume,
+    # then workers of both revisions, polls, a request, dispatch, replies on the reloaded pipeline)
+    upd = gen(chk, 'upd', consts(2, ['T1'], 1, 1), spec='GenSpecUpd', deadlock=True)
+    chk.counters['update_instance_transitions'] = len(upd)
+    if not thorough:
+        rnd.shuffle(upd)
+        upd = upd[:1000]
     jobs_a = [{'id': i, 'targets': ['T1'], 'events': events_of(h)} for i, h in enumerate(trans)]
+    jobs_a += [{'id': 2 * 10**6 + i, 'targets': ['T1'], 'events': events_of(h)} for i, h in enumerate(upd)]
     jobs_c = [{'id': 10**6 + i, 'targets': ['T1', 'T2'], 'events': events_of(h)} for i, h in enumerate(lean)]
     jobs_b = [{'id': len(jobs_a) + i, 'targets': ['T1', 'T2'], 'events': events_of(h)} for i, h in enumerate(sim)]
     chk.samples = [j['events'] for j in rnd.sample(jobs_a, min(2, len(jobs_a)))] + [j['events'] for j in jobs_b[:1]]
@@ -122,12 +132,13 @@ def run(pid, tier, seed, replay=None):
         kinds = [e['ev'] for e in j['events']]
         if 'Register' in kinds and 'Tick' in kinds and 'Run' in kinds:
             nontriv.add(json.dumps(j['events'], sort_keys=True))
-    for k in ('task_messages_written', 'abort_told', 'run_ids_drawn', 'ticks_while_inactive', 'messages_left_queued', 'run_id_reused'):
+    for k in ('task_messages_written', 'abort_told', 'run_ids_drawn', 'ticks_while_inactive', 'messages_left_queued', 'run_id_reused', 'updates_through_real_reload', 'registrations_after_update'):
         if not chk.counters.get(k) and not chk.violations:
             raise core.Machinery(f'vacuous run: counter {k} is zero')
     chk.counters.update(transitions_of_gen_instance=total, transitions_replayed=len(trans), sim_behaviours=len(sim), distinct_nontrivial=len(nontriv))
     chk.assumptions = [
         'fixed program a->b, a->r(regress); 2-4 worker connections, 1-2 targets, revisions rev0/rev1, one or two reload/archive cycles',
+        "the pipeline's current software revision is ground truth: the HEAD of a real scratch git checkout (two commits) at start-up and after each update; the code learns it only through dawgie.context._rev() (start-up) and FSM._reload() (update); dawgie.context.git_rev itself is compared as drift only",
         'life-cycle bits (active, phase) are environment inputs here; module Lifecycle decides how the real FSM produces them',
         'worker ground truth (registered with revision r, waiting, holds a task) is maintained by the trace specification from the events and the bytes written to each connection',
         '"fresh strictly larger" = larger than every run id stored at the time of the draw',
